@@ -161,6 +161,8 @@ where
                             } else {
                                 let mut current_param = match current.parse::<u64>() {
                                     Ok(val) => val,
+                                    // only digits were collected: the number is too large
+                                    Err(_) if !current.is_empty() => 9999,
                                     _ => 0,
                                 };
                                 current_param = u64::min(current_param, 9999);
@@ -284,6 +286,8 @@ where
                             } else {
                                 let mut current_param = match current.parse::<u64>() {
                                     Ok(val) => val,
+                                    // only digits were collected: the number is too large
+                                    Err(_) if !current.is_empty() => 9999,
                                     _ => 0,
                                 };
                                 current_param = u64::min(current_param, 9999);
